@@ -67,7 +67,8 @@ class ReadBuf:
         if len(v) % 4 != 0:
             v = pad * (4 - (len(v) % 4)) + v
         for i in range(0, len(v), 4):
-            r = (r << 32) | struct.unpack(f, v[i:i + 4])[0]
+            # Only the most significant word carries the sign; the rest are plain 32-bit digits.
+            r = (r << 32) | struct.unpack(f if i == 0 else '>I', v[i:i + 4])[0]
         return r
 
     def read_mpint1(self) -> int:
